@@ -16,7 +16,7 @@ BASE = {
     "Times": {1, 2}, "Dev": set(), "MaxPending": 2, "MaxEdits": 4, "MaxChain": 4,
     "MaxSyncs": 99, "MaxLen": 9999, "MaxLong": 1, "Cap": 1999, "BigVals": set(),
     "BigSize": 1000, "AvoidSet": set(), "Urg": {"none"}, "Emit": False,
-    "EditKinds": {"C", "D", "U"}, "WithTrim": False,
+    "EditKinds": {"C", "D", "U"}, "WithTrim": False, "Sit": "-",
     "Racing": False, "Faults": False,
 }
 
@@ -67,6 +67,27 @@ def gen_schedules(wd, name, c, init="MCInit", simulate=None, depth=None, timeout
     except OSError:
         pass
     return sch, r
+
+
+def gen_situations(wd, name, c, sit, init="PInit", timeout=300, limit=20):
+    """Shortest schedules (TLC breadth-first search, VIEW without the history) into a situation."""
+    c = dict(c, Emit=True, Sit=sit)
+    cfg = write_cfg(os.path.join(wd, name + ".cfg"), c, init=init, next_="MCNext",
+                    invariants=["EmitSit"], view="View")
+    r = tlc_check(wd, name, "MCSync.tla", cfg, timeout=timeout)
+    if os.path.getsize(r["out"]) > 3_000_000_000:
+        os.remove(r["out"])
+        raise RuntimeError(f"{name}: schedule output too large")
+    sch = replay_lines(r["out"])
+    os.remove(r["out"])
+    sch.sort(key=len)
+    rnd = random.Random(seed())
+    half = limit // 2
+    picked = sch[:half] + (rnd.sample(sch[half:], min(len(sch) - half, limit - half))
+                           if len(sch) > half else [])
+    log(f"[situations] {name}: {len(sch)} schedules into '{sit}', {len(picked)} used "
+        f"({r['wall_s']}s, timed_out={r['timed_out']})")
+    return picked
 
 
 def write_stimuli(path, schedules, c, storage="mem", valclass="ascii", flush=2, extra_steps=None,
